@@ -95,6 +95,11 @@ def mkMessage (args : List String) : Option (Message TB) :=
     match o sid, o ext with
     | some sid, some ext => some (.handshake (.clientHello ⟨0x0303, List.replicate 32 (7, 0), sid, [0x2f], [0], ext⟩))
     | _, _ => none
+  | ["shnew", v, ext] =>
+    let o (x : String) : Option (Option (List TB)) := if x == "none" then some none else (decodeHex x).map some
+    match v.toNat?, o ext with
+    | some v, some ext => some (.handshake (.serverHello ⟨v, List.replicate 32 (9, 0), none, 0x2f, 0, ext⟩))
+    | _, _ => none
   | ["ccs"] => some .changeCipherSpec
   | ["alert", s, d] => match s.toNat?, d.toNat? with
     | some s, some d => some (.alert s d)
